@@ -113,6 +113,7 @@ func runWorld(name string, seed uint64, replay []int32) *Result {
 	var tape *sim.Tape
 	if replay != nil {
 		tape = sim.NewReplayTape(replay)
+		tape.Seed = seed // streams derived from the seed (back-off jitter) must replay too
 	} else {
 		tape = sim.NewTape(seed)
 	}
